@@ -159,6 +159,22 @@ func MavenLoose(r *rand.Rand) string {
 	if r.Intn(5) == 0 {
 		s += "-SNAPSHOT"
 	}
+	// Shapes outside Maven Central's habits that Parse accepts all the same:
+	// a leading separator or qualifier, doubled and trailing separators.
+	switch r.Intn(24) {
+	case 0:
+		s = Pick(r, "-", ".") + s
+	case 1:
+		s = Pick(r, "alpha", "rc", "foo", "sp", "a", "final") + Pick(r, "-", ".", "") + s
+	case 2:
+		if i := strings.IndexAny(s, ".-"); i >= 0 {
+			s = s[:i] + Pick(r, "..", "--", ".-", "-.") + s[i+1:]
+		}
+	case 3:
+		s += Pick(r, "-", ".")
+	case 4:
+		s = Pick(r, "-", ".") + Pick(r, "alpha", "rc", "foo", "sp", "1") + Pick(r, "", ".1", "-1")
+	}
 	return s
 }
 
